@@ -330,7 +330,7 @@ class Check:
         wall = time.time() - s.t0
         if os.environ.get('VF_LEARN_ND'):
             for j, why in inconclusive:
-                if why == 'timeout':
+                if why == 'timeout' or why.startswith('unwinding bound too small'):
                     k = '%s|be%s' % (j.unit.name, j.unit.be)
                     NOT_DECIDED.setdefault(k, [])
                     if j.unit.index[j.h]['conf'] not in NOT_DECIDED[k]: NOT_DECIDED[k].append(j.unit.index[j.h]['conf'])
